@@ -827,7 +827,7 @@ class Norm:
             elif isinstance(v, ast.FormattedValue):
                 t = self.term(v.value, ctx)
                 if v.format_spec is not None:
-                    spec = Folder(self.prog, ctx.module).fold(v.format_spec)
+                    spec = Folder(self.prog, ctx.module, {}, ctx.cls).fold(v.format_spec)
                     t = ("xcall", "format", None, (t, ("const", spec if spec is not UNKNOWN else unparse(v.format_spec))), ())
                 parts.append(t)
         if all(isinstance(p, str) for p in parts):
@@ -1001,7 +1001,8 @@ def strip_validators(t: Any) -> Any:
     if not isinstance(t, tuple) or not t:
         return t
     if t[0] == "call" and ".type_check" in t[1] or (t[0] == "call" and t[1].endswith(":cast")):
-        for p, v in t[2]:
-            if p in ("value", "instance", "transaction_type", "entry_set_type"):
-                return strip_validators(v)
+        kw = dict(t[2])
+        for p in ("value", "instance", "transaction_type", "entry_set_type"):
+            if p in kw:
+                return strip_validators(kw[p])
     return tuple(strip_validators(x) if isinstance(x, tuple) else x for x in t)
